@@ -152,7 +152,7 @@ func (p *Parser) parseHeader(data []byte) (header *parser.PacketHeader, buf []by
 
 		for ; end < len(data); end++ {
 			c := data[end]
-			if c == '"' && data[end-1] != '\\' {
+			if c == '"' && !isEscaped(data, start, end) {
 				b := data[start : end+1]
 
 				tmp = make([]byte, len(b)+2)
@@ -188,6 +188,16 @@ func (p *Parser) parseHeader(data []byte) (header *parser.PacketHeader, buf []by
 
 	buf = data
 	return
+}
+
+// isEscaped reports whether data[i] is preceded by an odd number of
+// backslashes (counted back to, but not including, index start).
+func isEscaped(data []byte, start, i int) bool {
+	n := 0
+	for j := i - 1; j > start && data[j] == '\\'; j-- {
+		n++
+	}
+	return n%2 == 1
 }
 
 func (r *reconstructor) decode(types ...reflect.Type) (values []reflect.Value, err error) {
